@@ -271,7 +271,7 @@ def main():
 
 
 NA = {}
-HOOK_COMMITS = ["4ffbea9", "708978f", "913b738", "0c1e3e2", "fec59c7", "5da7c19", "8c35995"]
+HOOK_COMMITS = ["4ffbea9", "708978f", "913b738", "0c1e3e2", "fec59c7", "5da7c19", "8c35995", "0d13253"]
 
 if __name__ == "__main__":
     main()
